@@ -949,7 +949,8 @@ class Interferogram(RichData):
         p = RichData(psd_, 0, self.wavelength)
         p.x = ux
         p.y = uy
-        p.dx = ux[1] - ux[0]
+        # ux is a 2D grid, x varies along the second axis
+        p.dx = float(ux[0, 1] - ux[0, 0]) if ux.shape[1] > 1 else 0.
         p._default_twosided = False
         return p
 
